@@ -12,7 +12,7 @@ head portion first, every portion's items top of the stack first):
 
 * `flfinish <cap> <bump> <portions> <allocations> <freed>` — `SyncAllocator::allocate` × allocations, then
   `SyncFinisher::finish(freed)`:
-  `ok alloc=<handed out> bump=<b'> exhausted=<0|1> written=<w> portions=<p'>` or `panic`
+  `ok alloc=<handed out> bump=<b′> written=<w> portions=<p′>` or `panic`
 * `psnext <hash> <count> <metahex>` — `ProbeSequence::new` and `count` calls of `next`: `E<b>`/`T<b>`/`H<b>`/`X` …
 * `psalloc <hash> <metahex>` — `allocate_bucket`: `some <b>` / `none`
 * `pshash <seedhex16> <pageidhex32>` — `hash_raw_page_id`: the hash in decimal
@@ -61,7 +61,7 @@ def allocLine (line : String) : String :=
       match FreeList.finish cap s a freed with
       | none => "panic"
       | some r =>
-        s!"ok alloc={showNatList (FreeList.handedOut s a)} bump={r.state.bump} exhausted={if r.exhausted then 1 else 0} written={showNatList r.written} portions={showPortions r.state.portions}"
+        s!"ok alloc={showNatList (FreeList.handedOut s a)} bump={r.state.bump} written={showNatList r.written} portions={showPortions r.state.portions}"
     | _, _, _, _, _ => "bad-op"
   | ["psnext", hash, count, metahex] =>
     match hash.toNat?, count.toNat?, (bytesOfHex metahex).bind decodeSlots with
